@@ -71,28 +71,6 @@ theorem map_range_succ_last (f : Nat → β) (k : Nat) :
     (List.range (k + 1)).map f = (List.range k).map f ++ [f k] := by
   simp [List.range_succ]
 
-/-- `head? :: tail` rebuilds a list -/
-theorem head?_tail_eq {l : List β} {x : β} (h : l.head? = some x) : l = x :: l.tail := by
-  cases l with
-  | nil => simp at h
-  | cons a t => simp at h; simp [h]
-
-theorem head?_eq_none_iff' {l : List β} (h : l.head? = none) : l = [] := by
-  cases l with
-  | nil => rfl
-  | cons a t => simp at h
-
-/-- `getLast? :: reverse dropLast` is the reverse of a list -/
-theorem getLast?_dropLast_reverse {l : List β} {x : β} (h : l.getLast? = some x) :
-    l.reverse = x :: l.dropLast.reverse := by
-  have h1 : l.reverse.head? = some x := by simpa using h
-  have h2 := head?_tail_eq h1
-  rw [h2]
-  simp
-
-theorem getLast?_eq_none' {l : List β} (h : l.getLast? = none) : l = [] := by
-  simpa using h
-
 end ListRange
 
 /-! ### arithmetic helpers -/
@@ -302,5 +280,736 @@ theorem last_spec (m : Mode) {it : Rows} {k n : Nat} (h : it.WF k n) :
   obtain ⟨it', h1, _⟩ := nextBack_spec m h
   simp [last, h1]
 
+/-! #### `nth` -/
+
+/-- `nth(j)` with `j ≥ k`: everything is consumed (also when `j * (cols+skip)` wraps) -/
+theorem nth_ge (m : Mode) {it : Rows} {k n : Nat} (h : it.WF k n) {j : Nat} (hj : k ≤ j) :
+    it.nth m j = .ok (none, { it with v := Win.empty }) := by
+  have hnl : ¬ j * (it.cols + it.skip) < it.v.len := fun hlt => by
+    have := (h.mul_lt_len_iff j).1 hlt; omega
+  by_cases ho : WORD ≤ j * (it.cols + it.skip)
+  · simp only [nth, uadd_ok m _ _ h.stride_word, ok_bind, omul_of_ge ho]
+    rw [if_pos (Or.inr trivial)]
+    exact next_zero h.empty
+  · have hW : j * (it.cols + it.skip) < WORD := by omega
+    simp only [nth, uadd_ok m _ _ h.stride_word, ok_bind, omul_of_lt hW]
+    rw [if_pos (Or.inl (by omega))]
+    exact next_zero h.empty
+
+/-- `nth(j)` with `j < k`: the cursor is first advanced by `j` rows -/
+theorem nth_lt (m : Mode) {it : Rows} {k n : Nat} (h : it.WF k n) {j : Nat} (hj : j < k) :
+    it.nth m j = next { it with v := ⟨it.v.off + j * (it.cols + it.skip), it.v.len - j * (it.cols + it.skip)⟩ } := by
+  have hlt : j * (it.cols + it.skip) < it.v.len := (h.mul_lt_len_iff j).2 hj
+  have hin := h.inside
+  have hw := h.word
+  have hW : j * (it.cols + it.skip) < WORD := by omega
+  have hcond : ¬ (j * (it.cols + it.skip) ≥ it.v.len ∨ false = true) := by
+    simp; omega
+  simp only [nth, uadd_ok m _ _ h.stride_word, ok_bind, omul_of_lt hW]
+  rw [if_neg hcond]
+  simp [Win.splitAt, Nat.le_of_lt hlt]
+
+/-- `nth` / `RowsMut::nth` -/
+theorem nth_spec (m : Mode) {it : Rows} {k n : Nat} (h : it.WF k n) (j : Nat) :
+    ∃ it', it.nth m j = .ok ((it.abs k)[j]?, it') ∧ it'.WF (k - (j + 1)) n ∧
+      it'.cols = it.cols ∧ it'.skip = it.skip ∧ it'.abs (k - (j + 1)) = (it.abs k).drop (j + 1) := by
+  by_cases hj : j < k
+  · obtain ⟨hwf, habs⟩ := h.advance hj
+    obtain ⟨it', h1, h2, h3, h4, h5⟩ := next_spec hwf
+    refine ⟨it', ?_, ?_, h3, h4, ?_⟩
+    · rw [nth_lt m h hj, h1, habs]
+      simp
+    · have : k - (j + 1) = k - j - 1 := by omega
+      rw [this]; exact h2
+    · have : k - (j + 1) = k - j - 1 := by omega
+      rw [this, h5, habs]
+      simp
+  · have hk : k - (j + 1) = 0 := by omega
+    refine ⟨{ it with v := Win.empty }, ?_, by rw [hk]; exact h.empty, rfl, rfl, ?_⟩
+    · rw [nth_ge m h (by omega), abs_getElem?, if_neg hj]
+    · rw [hk, abs_zero]
+      symm
+      apply List.drop_eq_nil_of_le
+      rw [abs_length]; omega
+
+/-! #### `nth_back` -/
+
+theorem nthBack_ge (m : Mode) {it : Rows} {k n : Nat} (h : it.WF k n) {j : Nat} (hj : k ≤ j) :
+    it.nthBack m j = .ok (none, { it with v := Win.empty }) := by
+  have hnl : ¬ j * (it.cols + it.skip) < it.v.len := fun hlt => by
+    have := (h.mul_lt_len_iff j).1 hlt; omega
+  by_cases ho : WORD ≤ j * (it.cols + it.skip)
+  · simp only [nthBack, uadd_ok m _ _ h.stride_word, ok_bind, omul_of_ge ho]
+    rw [if_pos (Or.inr trivial)]
+    exact nextBack_zero m h.empty
+  · have hW : j * (it.cols + it.skip) < WORD := by omega
+    simp only [nthBack, uadd_ok m _ _ h.stride_word, ok_bind, omul_of_lt hW]
+    rw [if_pos (Or.inl (by omega))]
+    exact nextBack_zero m h.empty
+
+theorem nthBack_lt (m : Mode) {it : Rows} {k n : Nat} (h : it.WF k n) {j : Nat} (hj : j < k) :
+    it.nthBack m j = nextBack m { it with v := ⟨it.v.off, it.v.len - j * (it.cols + it.skip)⟩ } := by
+  have hlt : j * (it.cols + it.skip) < it.v.len := (h.mul_lt_len_iff j).2 hj
+  have hin := h.inside
+  have hw := h.word
+  have hW : j * (it.cols + it.skip) < WORD := by omega
+  have hcond : ¬ (j * (it.cols + it.skip) ≥ it.v.len ∨ false = true) := by
+    simp; omega
+  simp only [nthBack, uadd_ok m _ _ h.stride_word, ok_bind, omul_of_lt hW]
+  rw [if_neg hcond]
+  simp [usub_ok m _ _ (Nat.le_of_lt hlt), Win.getTo]
+
+/-- `nth_back` / `RowsMut::nth_back` (result as in `Seq.nthBack`) -/
+theorem nthBack_spec (m : Mode) {it : Rows} {k n : Nat} (h : it.WF k n) (j : Nat) :
+    ∃ it', it.nthBack m j = .ok ((Seq.nthBack (it.abs k) j).1, it') ∧ it'.WF (k - (j + 1)) n ∧
+      it'.cols = it.cols ∧ it'.skip = it.skip ∧ it'.abs (k - (j + 1)) = (Seq.nthBack (it.abs k) j).2 := by
+  simp only [Seq.nthBack, abs_length]
+  by_cases hj : j < k
+  · obtain ⟨hwf, habs⟩ := h.retreat hj
+    obtain ⟨it', h1, h2, h3, h4, h5⟩ := nextBack_spec m hwf
+    have hk : k - (j + 1) = k - j - 1 := by omega
+    have hk' : k - 1 - j = k - j - 1 := by omega
+    have hne : ¬ k - j = 0 := by omega
+    refine ⟨it', ?_, ?_, h3, h4, ?_⟩
+    · rw [nthBack_lt m h hj, h1, if_pos hj, hk', abs_getElem?, if_pos (by omega)]
+      simp only [abs, map_range_getLast?, if_neg hne]
+    · rw [hk]; exact h2
+    · rw [hk, h5]
+      simp only [abs, map_range_dropLast, map_range_take]
+      have : min (k - j - 1) k = k - j - 1 := by omega
+      rw [this]
+  · have hk : k - (j + 1) = 0 := by omega
+    refine ⟨{ it with v := Win.empty }, ?_, by rw [hk]; exact h.empty, rfl, rfl, ?_⟩
+    · rw [nthBack_ge m h (by omega), if_neg hj]
+    · rw [hk, abs_zero]; simp
+
+/-! #### `size_hint` / `len` / `count` -/
+
+theorem sizeHint_spec (m : Mode) {it : Rows} {k n : Nat} (h : it.WF k n) : it.sizeHint m = .ok k := by
+  cases k with
+  | zero =>
+    by_cases hc : it.cols = 0
+    · simp [sizeHint, hc]
+    · simp [sizeHint, hc, uadd_ok m _ _ h.stride_word, h.zero_len]
+  | succ r =>
+    have hl := h.succ_len
+    have hc : 0 < it.cols := h.cols_pos (by omega)
+    have hc' : ¬ it.cols = 0 := by omega
+    simp only [sizeHint, if_neg hc', uadd_ok m _ _ h.stride_word, ok_bind, pure_eq, hl]
+    congr 1
+    have hd : 0 < it.cols + it.skip := by omega
+    by_cases hs : it.skip = 0
+    · simp only [hs, Nat.add_zero]
+      have : r * it.cols + it.cols = it.cols * (r + 1) := by rw [Nat.mul_comm, Nat.mul_add]; omega
+      rw [this, Nat.mul_div_cancel_left _ hc, Nat.mul_mod_right]
+      simp
+    · have hlt : it.cols < it.cols + it.skip := by omega
+      rw [Nat.mul_comm r, Nat.mul_add_div hd, Nat.mul_add_mod, Nat.div_eq_of_lt hlt, Nat.mod_eq_of_lt hlt,
+        Nat.div_self hc]
+
+/-! #### `fold` / `rfold` -/
+
+/-- `fold`/`for_each`/`collect`: the remaining rows in order -/
+theorem collect_spec {it : Rows} {k n : Nat} (h : it.WF k n) (fuel : Nat) (hf : k < fuel) :
+    it.collect fuel = .ok (it.abs k) := by
+  induction fuel generalizing it k with
+  | zero => omega
+  | succ fuel ih =>
+    cases k with
+    | zero => simp [collect, next_zero h, abs]
+    | succ k =>
+      obtain ⟨it', h1, h2, _, _, _, h6⟩ := next_succ h
+      have := ih h2 (by omega)
+      simp only [collect, h1, ok_bind, this, pure_eq]
+      rw [h6, abs, map_range_succ_head]
+      simp
+
+/-- `rfold`: the remaining rows in reverse order -/
+theorem collectBack_spec (m : Mode) {it : Rows} {k n : Nat} (h : it.WF k n) (fuel : Nat) (hf : k < fuel) :
+    it.collectBack m fuel = .ok (it.abs k).reverse := by
+  induction fuel generalizing it k with
+  | zero => omega
+  | succ fuel ih =>
+    cases k with
+    | zero => simp [collectBack, nextBack_zero m h, abs]
+    | succ k =>
+      obtain ⟨it', h1, h2, _, _, _, h6⟩ := nextBack_succ m h
+      have := ih h2 (by omega)
+      simp only [collectBack, h1, ok_bind, this, pure_eq]
+      rw [h6, abs, map_range_succ_last]
+      simp
+
+/-! #### words of operations -/
+
+theorem step_spec (m : Mode) {it : Rows} {k n : Nat} (h : it.WF k n) (o : Seq.Op) :
+    ∃ it' k', it.step m o = .ok ((Seq.step (it.abs k) o).1, it') ∧ it'.WF k' n ∧
+      it'.cols = it.cols ∧ it'.skip = it.skip ∧ it'.abs k' = (Seq.step (it.abs k) o).2 := by
+  cases o with
+  | next =>
+    obtain ⟨it', h1, h2, h3, h4, h5⟩ := next_spec h
+    exact ⟨it', k - 1, by simp [step, h1, Seq.step, Seq.next], h2, h3, h4, by simpa [Seq.step, Seq.next] using h5⟩
+  | nextBack =>
+    obtain ⟨it', h1, h2, h3, h4, h5⟩ := nextBack_spec m h
+    exact ⟨it', k - 1, by simp [step, h1, Seq.step, Seq.nextBack], h2, h3, h4,
+      by simpa [Seq.step, Seq.nextBack] using h5⟩
+  | nth j =>
+    obtain ⟨it', h1, h2, h3, h4, h5⟩ := nth_spec m h j
+    exact ⟨it', k - (j + 1), by simp [step, h1, Seq.step, Seq.nth], h2, h3, h4,
+      by simpa [Seq.step, Seq.nth] using h5⟩
+  | nthBack j =>
+    obtain ⟨it', h1, h2, h3, h4, h5⟩ := nthBack_spec m h j
+    exact ⟨it', k - (j + 1), by simp [step, h1, Seq.step], h2, h3, h4, by simpa [Seq.step] using h5⟩
+  | len =>
+    exact ⟨it, k, by simp [step, sizeHint_spec m h, Seq.step, abs_length], h, rfl, rfl, by simp [Seq.step]⟩
+
+/-- any word of `next`/`next_back`/`nth`/`nth_back`/`len` -/
+theorem run_spec (m : Mode) {it : Rows} {k n : Nat} (h : it.WF k n) (w : List Seq.Op) :
+    ∃ it' k', it.run m w = .ok ((Seq.run (it.abs k) w).1, it') ∧ it'.WF k' n ∧
+      it'.cols = it.cols ∧ it'.skip = it.skip ∧ it'.abs k' = (Seq.run (it.abs k) w).2 := by
+  induction w generalizing it k with
+  | nil => exact ⟨it, k, by simp [run, Seq.run], h, rfl, rfl, by simp [Seq.run]⟩
+  | cons o os ih =>
+    obtain ⟨it1, k1, h1, h2, h3, h4, h5⟩ := step_spec m h o
+    obtain ⟨it2, k2, g1, g2, g3, g4, g5⟩ := ih h2
+    refine ⟨it2, k2, ?_, g2, g3.trans h3, g4.trans h4, ?_⟩
+    · simp only [run, h1, ok_bind, g1, pure_eq, Seq.run, h5]
+    · simp only [Seq.run, g5, h5]
+
+/-! #### disjointness -/
+
+theorem abs_pairwise_disjoint (it : Rows) (k : Nat) :
+    (it.abs k).Pairwise Win.Disjoint := by
+  rw [abs, List.pairwise_map]
+  refine List.Pairwise.imp ?_ List.pairwise_lt_range
+  intro a b hab
+  left
+  have : (a + 1) * (it.cols + it.skip) ≤ b * (it.cols + it.skip) := Nat.mul_le_mul_right _ hab
+  rw [Nat.add_mul] at this
+  simp only; omega
+
+theorem abs_inside {it : Rows} {k n : Nat} (h : it.WF k n) :
+    ∀ w ∈ it.abs k, w.off + w.len ≤ n ∧ w.len = it.cols := by
+  intro w hw
+  obtain ⟨j, hj, rfl⟩ := mem_abs.1 hw
+  obtain ⟨r, rfl⟩ : ∃ r, k = r + 1 := ⟨k - 1, by omega⟩
+  have hl := h.succ_len
+  have hin := h.inside
+  have : j * (it.cols + it.skip) ≤ r * (it.cols + it.skip) := Nat.mul_le_mul_right _ (by omega)
+  exact ⟨by simp only; omega, rfl⟩
+
 end Rows
+
+/-! #### the row cursors of the three receivers -/
+
+/-- `TooDee::rows` / `rows_mut` -/
+theorem TD.rows_WF {α : Type} (t : TD α) (h : t.Inv) :
+    t.rows.WF t.numRows t.data.length ∧ t.rows.cols = t.numCols ∧ t.rows.skip = 0 ∧
+    t.rows.abs t.numRows = (List.range t.numRows).map fun r => ⟨t.pos 0 r, t.numCols⟩ := by
+  have hl := h.len
+  have hw := h.word
+  refine ⟨⟨?_, ?_, ?_, ?_, hw⟩, rfl, rfl, ?_⟩
+  · intro hr
+    have := h.zero
+    simp only [TD.rows]; omega
+  · simp only [TD.rows, TD.win, Nat.add_zero]
+    by_cases hr : t.numRows = 0
+    · simp [hr, hl]
+    · obtain ⟨r, hr'⟩ : ∃ r, t.numRows = r + 1 := ⟨t.numRows - 1, by omega⟩
+      rw [hl, hr', if_neg (by omega), Nat.mul_add, Nat.mul_comm]; simp
+  · simp [TD.rows, TD.win]
+  · simp only [TD.rows, Nat.add_zero]
+    by_cases hr : t.numRows = 0
+    · have := h.zero.2 hr; omega
+    · have : t.numCols * 1 ≤ t.numCols * t.numRows := Nat.mul_le_mul_left _ (by omega)
+      omega
+  · simp [Rows.abs, TD.rows, TD.win, TD.pos]
+
+/-- `TooDeeView::rows`, `TooDeeViewMut::rows` / `rows_mut` -/
+theorem VW.rows_WF (m : Mode) (v : VW) (n : Nat) (h : v.Inv n) :
+    ∃ it, v.rows m = .ok it ∧ it.WF v.numRows n ∧ it.v = v.data ∧ it.cols = v.numCols ∧
+      it.cols + it.skip = v.stride ∧
+      it.abs v.numRows = (List.range v.numRows).map fun r => ⟨v.pos 0 r, v.numCols⟩ := by
+  have hs := h.stride
+  have hcs : v.numCols + (v.stride - v.numCols) = v.stride := by omega
+  refine ⟨⟨v.data, v.numCols, v.stride - v.numCols⟩, by simp [VW.rows, usub_ok m _ _ hs], ?_, rfl, rfl, hcs, ?_⟩
+  · refine ⟨?_, ?_, h.inside, ?_, h.word⟩
+    · intro hr
+      have := h.zero
+      simp only; omega
+    · simp only [hcs]; exact h.len
+    · simp only [hcs]; exact h.stride_word
+  · simp only [Rows.abs, hcs, VW.pos, Nat.add_zero]
+
+/-! ### `Col` / `ColMut` -/
+namespace Col
+
+theorem abs_length (it : Col) (k : Nat) : (it.abs k).length = k := by simp [abs]
+
+theorem abs_getElem? (it : Col) (k j : Nat) :
+    (it.abs k)[j]? = if j < k then some (it.v.off + j * (1 + it.skip)) else none := by
+  simp only [abs, map_range_getElem?]
+
+theorem mem_abs {it : Col} {k : Nat} {p : Nat} :
+    p ∈ it.abs k ↔ ∃ j, j < k ∧ p = it.v.off + j * (1 + it.skip) := by
+  simp only [abs, List.mem_map, List.mem_range]
+  constructor
+  · rintro ⟨j, hj, rfl⟩; exact ⟨j, hj, rfl⟩
+  · rintro ⟨j, hj, rfl⟩; exact ⟨j, hj, rfl⟩
+
+theorem abs_zero (it : Col) : it.abs 0 = [] := by simp [abs]
+
+/-- `abs` only depends on the window's offset and `skip` -/
+theorem abs_congr {it it' : Col} (k : Nat) (ho : it'.v.off = it.v.off) (hs : it'.skip = it.skip) :
+    it'.abs k = it.abs k := by
+  simp [abs, ho, hs]
+
+theorem WF.zero_len {it : Col} {n : Nat} (h : it.WF 0 n) : it.v.len = 0 := by
+  simpa using h.len
+
+theorem WF.succ_len {it : Col} {k n : Nat} (h : it.WF (k + 1) n) :
+    it.v.len = k * (1 + it.skip) + 1 := by
+  simpa using h.len
+
+theorem WF.empty {it : Col} {k n : Nat} (h : it.WF k n) : ({ it with v := Win.empty } : Col).WF 0 n :=
+  ⟨by simp [Win.empty], by simp [Win.empty], h.stride_word, h.word⟩
+
+/-- the `j`-th cell of the column lies in the remaining slice iff `j < k` -/
+theorem WF.mul_lt_len_iff {it : Col} {k n : Nat} (h : it.WF k n) (j : Nat) :
+    j * (1 + it.skip) < it.v.len ↔ j < k := by
+  cases k with
+  | zero => simp [h.zero_len]
+  | succ r =>
+    have hl := h.succ_len
+    constructor
+    · intro hlt
+      apply Classical.byContradiction
+      intro hge
+      have : (r + 1) * (1 + it.skip) ≤ j * (1 + it.skip) :=
+        Nat.mul_le_mul_right _ (by omega)
+      rw [Nat.add_mul] at this
+      omega
+    · intro hlt
+      have : j * (1 + it.skip) ≤ r * (1 + it.skip) := Nat.mul_le_mul_right _ (by omega)
+      omega
+
+theorem WF.advance {it : Col} {k n : Nat} (h : it.WF k n) {j : Nat} (hj : j < k) :
+    let it' : Col := { it with v := ⟨it.v.off + j * (1 + it.skip), it.v.len - j * (1 + it.skip)⟩ }
+    it'.WF (k - j) n ∧ it'.abs (k - j) = (it.abs k).drop j := by
+  obtain ⟨r, rfl⟩ : ∃ r, k = j + r + 1 := ⟨k - j - 1, by omega⟩
+  have hl := h.succ_len
+  have hin := h.inside
+  rw [Nat.add_mul] at hl
+  have hk : j + r + 1 - j = r + 1 := by omega
+  rw [hk]
+  refine ⟨⟨?_, ?_, h.stride_word, h.word⟩, ?_⟩
+  · simp only [Nat.add_sub_cancel]; simp; omega
+  · simp only; omega
+  · rw [abs, abs, map_range_drop, hk]
+    apply map_range_congr
+    intro i _
+    simp [Nat.add_mul]; omega
+
+theorem WF.retreat {it : Col} {k n : Nat} (h : it.WF k n) {j : Nat} (hj : j < k) :
+    let it' : Col := { it with v := ⟨it.v.off, it.v.len - j * (1 + it.skip)⟩ }
+    it'.WF (k - j) n ∧ it'.abs (k - j) = (it.abs k).take (k - j) := by
+  obtain ⟨r, rfl⟩ : ∃ r, k = j + r + 1 := ⟨k - j - 1, by omega⟩
+  have hl := h.succ_len
+  have hin := h.inside
+  rw [Nat.add_mul] at hl
+  have hk : j + r + 1 - j = r + 1 := by omega
+  rw [hk]
+  refine ⟨⟨?_, ?_, h.stride_word, h.word⟩, ?_⟩
+  · simp only [Nat.add_sub_cancel]; simp; omega
+  · simp only; omega
+  · rw [abs, abs, map_range_take]
+    have : min (r + 1) (j + r + 1) = r + 1 := by omega
+    rw [this]
+
+/-! #### `next` -/
+
+theorem next_zero {it : Col} {n : Nat} (h : it.WF 0 n) : it.next = .ok (none, it) := by
+  simp [next, h.zero_len]
+
+theorem next_succ {it : Col} {k n : Nat} (h : it.WF (k + 1) n) :
+    ∃ it', it.next = .ok (some it.v.off, it') ∧ it'.WF k n ∧ it'.skip = it.skip ∧
+      (k ≠ 0 → it'.v.off = it.v.off + (1 + it.skip)) ∧
+      it'.abs k = (it.abs (k + 1)).tail := by
+  have hl := h.succ_len
+  have hin := h.inside
+  cases k with
+  | zero =>
+    refine ⟨{ it with v := Win.empty }, ?_, h.empty, rfl, fun h0 => absurd rfl h0, by simp [abs]⟩
+    have h1 : it.v.len = 1 := by simpa using hl
+    simp [next, h1]
+  | succ j =>
+    rw [Nat.add_mul] at hl
+    refine ⟨{ it with v := ⟨it.v.off + 1 + it.skip, j * (1 + it.skip) + 1⟩ }, ?_, ?_,
+      rfl, fun _ => by simp; omega, ?_⟩
+    · have h1 : ¬ it.v.len = 0 := by omega
+      have h3 : ¬ it.v.len - 1 = 0 := by omega
+      have h4 : it.skip ≤ it.v.len - 1 := by omega
+      simp [next, Win.getFrom, h1, h3, h4]
+      omega
+    · refine ⟨by simp, ?_, h.stride_word, h.word⟩
+      simp only; omega
+    · rw [abs, abs, map_range_tail]
+      apply map_range_congr
+      intro i _
+      simp [Nat.add_mul]; omega
+
+/-- `next` / `ColMut::next` -/
+theorem next_spec {it : Col} {k n : Nat} (h : it.WF k n) :
+    ∃ it', it.next = .ok ((it.abs k).head?, it') ∧ it'.WF (k - 1) n ∧
+      it'.skip = it.skip ∧ it'.abs (k - 1) = (it.abs k).tail := by
+  cases k with
+  | zero => exact ⟨it, by simp [next_zero h, abs], h, rfl, by simp [abs]⟩
+  | succ k =>
+    obtain ⟨it', h1, h2, h3, _, h5⟩ := next_succ h
+    refine ⟨it', ?_, h2, h3, h5⟩
+    rw [h1, abs, map_range_head?]
+    simp
+
+/-! #### `next_back` -/
+
+theorem nextBack_zero (m : Mode) {it : Col} {n : Nat} (h : it.WF 0 n) : it.nextBack m = .ok (none, it) := by
+  simp [nextBack, h.zero_len]
+
+theorem nextBack_succ (m : Mode) {it : Col} {k n : Nat} (h : it.WF (k + 1) n) :
+    ∃ it', it.nextBack m = .ok (some (it.v.off + k * (1 + it.skip)), it') ∧ it'.WF k n ∧
+      it'.skip = it.skip ∧ (k ≠ 0 → it'.v.off = it.v.off) ∧
+      it'.abs k = (it.abs (k + 1)).dropLast := by
+  have hl := h.succ_len
+  have hin := h.inside
+  cases k with
+  | zero =>
+    refine ⟨{ it with v := Win.empty }, ?_, h.empty, rfl, fun h0 => absurd rfl h0, by simp [abs]⟩
+    have h1 : it.v.len = 1 := by simpa using hl
+    simp [nextBack, h1]
+  | succ j =>
+    refine ⟨{ it with v := ⟨it.v.off, j * (1 + it.skip) + 1⟩ }, ?_, ?_, rfl, fun _ => rfl, ?_⟩
+    · have h1 : ¬ it.v.len = 0 := by omega
+      have h2 : it.v.len - 1 = (j + 1) * (1 + it.skip) := by omega
+      have h3 : ¬ (j + 1) * (1 + it.skip) = 0 := by rw [Nat.add_mul]; omega
+      have h4 : usub m ((j + 1) * (1 + it.skip)) it.skip = .ok (j * (1 + it.skip) + 1) := by
+        rw [usub_ok m _ _ (by rw [Nat.add_mul]; omega)]; congr 1; rw [Nat.add_mul]; omega
+      have h5 : j * (1 + it.skip) + 1 ≤ (j + 1) * (1 + it.skip) := by
+        rw [Nat.add_mul]; omega
+      simp [nextBack, Win.getTo, h1, h2, h3, h4, h5]
+    · refine ⟨by simp, ?_, h.stride_word, h.word⟩
+      rw [Nat.add_mul] at hl
+      simp only; omega
+    · rw [abs, abs, map_range_dropLast]
+      rfl
+
+/-- `next_back` / `ColMut::next_back` -/
+theorem nextBack_spec (m : Mode) {it : Col} {k n : Nat} (h : it.WF k n) :
+    ∃ it', it.nextBack m = .ok ((it.abs k).getLast?, it') ∧ it'.WF (k - 1) n ∧
+      it'.skip = it.skip ∧ it'.abs (k - 1) = (it.abs k).dropLast := by
+  cases k with
+  | zero => exact ⟨it, by simp [nextBack_zero m h, abs], h, rfl, by simp [abs]⟩
+  | succ k =>
+    obtain ⟨it', h1, h2, h3, _, h5⟩ := nextBack_succ m h
+    refine ⟨it', ?_, h2, h3, h5⟩
+    rw [h1, abs, map_range_getLast?]
+    simp
+
+theorem last_spec (m : Mode) {it : Col} {k n : Nat} (h : it.WF k n) :
+    it.last m = .ok (it.abs k).getLast? := by
+  obtain ⟨it', h1, _⟩ := nextBack_spec m h
+  simp [last, h1]
+
+/-! #### `nth` -/
+
+theorem nth_ge (m : Mode) {it : Col} {k n : Nat} (h : it.WF k n) {j : Nat} (hj : k ≤ j) :
+    it.nth m j = .ok (none, { it with v := Win.empty }) := by
+  have hnl : ¬ j * (1 + it.skip) < it.v.len := fun hlt => by
+    have := (h.mul_lt_len_iff j).1 hlt; omega
+  by_cases ho : WORD ≤ j * (1 + it.skip)
+  · simp only [nth, uadd_ok m _ _ h.stride_word, ok_bind, omul_of_ge ho]
+    rw [if_pos (Or.inr trivial)]
+    exact next_zero h.empty
+  · have hW : j * (1 + it.skip) < WORD := by omega
+    simp only [nth, uadd_ok m _ _ h.stride_word, ok_bind, omul_of_lt hW]
+    rw [if_pos (Or.inl (by omega))]
+    exact next_zero h.empty
+
+theorem nth_lt (m : Mode) {it : Col} {k n : Nat} (h : it.WF k n) {j : Nat} (hj : j < k) :
+    it.nth m j = next { it with v := ⟨it.v.off + j * (1 + it.skip), it.v.len - j * (1 + it.skip)⟩ } := by
+  have hlt : j * (1 + it.skip) < it.v.len := (h.mul_lt_len_iff j).2 hj
+  have hin := h.inside
+  have hw := h.word
+  have hW : j * (1 + it.skip) < WORD := by omega
+  have hcond : ¬ (j * (1 + it.skip) ≥ it.v.len ∨ false = true) := by
+    simp; omega
+  simp only [nth, uadd_ok m _ _ h.stride_word, ok_bind, omul_of_lt hW]
+  rw [if_neg hcond]
+  simp [Win.splitAt, Nat.le_of_lt hlt]
+
+/-- `nth` / `ColMut::nth` -/
+theorem nth_spec (m : Mode) {it : Col} {k n : Nat} (h : it.WF k n) (j : Nat) :
+    ∃ it', it.nth m j = .ok ((it.abs k)[j]?, it') ∧ it'.WF (k - (j + 1)) n ∧
+      it'.skip = it.skip ∧ it'.abs (k - (j + 1)) = (it.abs k).drop (j + 1) := by
+  by_cases hj : j < k
+  · obtain ⟨hwf, habs⟩ := h.advance hj
+    obtain ⟨it', h1, h2, h3, h5⟩ := next_spec hwf
+    refine ⟨it', ?_, ?_, h3, ?_⟩
+    · rw [nth_lt m h hj, h1, habs]
+      simp
+    · have : k - (j + 1) = k - j - 1 := by omega
+      rw [this]; exact h2
+    · have : k - (j + 1) = k - j - 1 := by omega
+      rw [this, h5, habs]
+      simp
+  · have hk : k - (j + 1) = 0 := by omega
+    refine ⟨{ it with v := Win.empty }, ?_, by rw [hk]; exact h.empty, rfl, ?_⟩
+    · rw [nth_ge m h (by omega), abs_getElem?, if_neg hj]
+    · rw [hk, abs_zero]
+      symm
+      apply List.drop_eq_nil_of_le
+      rw [abs_length]; omega
+
+/-! #### `nth_back` -/
+
+theorem nthBack_ge (m : Mode) {it : Col} {k n : Nat} (h : it.WF k n) {j : Nat} (hj : k ≤ j) :
+    it.nthBack m j = .ok (none, { it with v := Win.empty }) := by
+  have hnl : ¬ j * (1 + it.skip) < it.v.len := fun hlt => by
+    have := (h.mul_lt_len_iff j).1 hlt; omega
+  by_cases ho : WORD ≤ j * (1 + it.skip)
+  · simp only [nthBack, uadd_ok m _ _ h.stride_word, ok_bind, omul_of_ge ho]
+    rw [if_pos (Or.inr trivial)]
+    exact nextBack_zero m h.empty
+  · have hW : j * (1 + it.skip) < WORD := by omega
+    simp only [nthBack, uadd_ok m _ _ h.stride_word, ok_bind, omul_of_lt hW]
+    rw [if_pos (Or.inl (by omega))]
+    exact nextBack_zero m h.empty
+
+theorem nthBack_lt (m : Mode) {it : Col} {k n : Nat} (h : it.WF k n) {j : Nat} (hj : j < k) :
+    it.nthBack m j = nextBack m { it with v := ⟨it.v.off, it.v.len - j * (1 + it.skip)⟩ } := by
+  have hlt : j * (1 + it.skip) < it.v.len := (h.mul_lt_len_iff j).2 hj
+  have hin := h.inside
+  have hw := h.word
+  have hW : j * (1 + it.skip) < WORD := by omega
+  have hcond : ¬ (j * (1 + it.skip) ≥ it.v.len ∨ false = true) := by
+    simp; omega
+  simp only [nthBack, uadd_ok m _ _ h.stride_word, ok_bind, omul_of_lt hW]
+  rw [if_neg hcond]
+  simp [usub_ok m _ _ (Nat.le_of_lt hlt), Win.getTo]
+
+/-- `nth_back` / `ColMut::nth_back` (result as in `Seq.nthBack`) -/
+theorem nthBack_spec (m : Mode) {it : Col} {k n : Nat} (h : it.WF k n) (j : Nat) :
+    ∃ it', it.nthBack m j = .ok ((Seq.nthBack (it.abs k) j).1, it') ∧ it'.WF (k - (j + 1)) n ∧
+      it'.skip = it.skip ∧ it'.abs (k - (j + 1)) = (Seq.nthBack (it.abs k) j).2 := by
+  simp only [Seq.nthBack, abs_length]
+  by_cases hj : j < k
+  · obtain ⟨hwf, habs⟩ := h.retreat hj
+    obtain ⟨it', h1, h2, h3, h5⟩ := nextBack_spec m hwf
+    have hk : k - (j + 1) = k - j - 1 := by omega
+    have hk' : k - 1 - j = k - j - 1 := by omega
+    have hne : ¬ k - j = 0 := by omega
+    refine ⟨it', ?_, ?_, h3, ?_⟩
+    · rw [nthBack_lt m h hj, h1, if_pos hj, hk', abs_getElem?, if_pos (by omega)]
+      simp only [abs, map_range_getLast?, if_neg hne]
+    · rw [hk]; exact h2
+    · rw [hk, h5]
+      simp only [abs, map_range_dropLast, map_range_take]
+      have : min (k - j - 1) k = k - j - 1 := by omega
+      rw [this]
+  · have hk : k - (j + 1) = 0 := by omega
+    refine ⟨{ it with v := Win.empty }, ?_, by rw [hk]; exact h.empty, rfl, ?_⟩
+    · rw [nthBack_ge m h (by omega), if_neg hj]
+    · rw [hk, abs_zero]; simp
+
+/-! #### `size_hint` / `len` / `count` -/
+
+theorem sizeHint_spec (m : Mode) {it : Col} {k n : Nat} (h : it.WF k n) : it.sizeHint m = .ok k := by
+  cases k with
+  | zero => simp [sizeHint, uadd_ok m _ _ h.stride_word, h.zero_len]
+  | succ r =>
+    have hl := h.succ_len
+    simp only [sizeHint, uadd_ok m _ _ h.stride_word, ok_bind, pure_eq, hl]
+    congr 1
+    have hd : 0 < 1 + it.skip := by omega
+    by_cases hs : it.skip = 0
+    · simp [hs, Nat.mod_one]
+    · have hlt : 1 < 1 + it.skip := by omega
+      rw [Nat.mul_comm r, Nat.mul_add_div hd, Nat.mul_add_mod, Nat.div_eq_of_lt hlt, Nat.mod_eq_of_lt hlt]
+
+/-! #### indexing -/
+
+/-- `col[i]` with `i < k` -/
+theorem index_lt (m : Mode) {it : Col} {k n : Nat} (h : it.WF k n) {i : Nat} (hi : i < k) :
+    it.index m i = .ok (it.v.off + i * (1 + it.skip)) := by
+  have hlt : i * (1 + it.skip) < it.v.len := (h.mul_lt_len_iff i).2 hi
+  have hin := h.inside
+  have hw := h.word
+  have hW : i * (1 + it.skip) < WORD := by omega
+  simp [index, uadd_ok m _ _ h.stride_word, omul_of_lt hW, Win.index, hlt]
+
+/-- `col[i]` with `i ≥ k` panics — also when `i * (1+skip)` wraps -/
+theorem index_ge (m : Mode) {it : Col} {k n : Nat} (h : it.WF k n) {i : Nat} (hi : k ≤ i) :
+    it.index m i = .error .panic := by
+  have hnl : ¬ i * (1 + it.skip) < it.v.len := fun hlt => by
+    have := (h.mul_lt_len_iff i).1 hlt; omega
+  by_cases ho : WORD ≤ i * (1 + it.skip)
+  · simp [index, uadd_ok m _ _ h.stride_word, omul_of_ge ho]
+  · have hW : i * (1 + it.skip) < WORD := by omega
+    simp [index, uadd_ok m _ _ h.stride_word, omul_of_lt hW, Win.index, hnl]
+
+/-! #### `fold` / `rfold` -/
+
+theorem collect_spec {it : Col} {k n : Nat} (h : it.WF k n) (fuel : Nat) (hf : k < fuel) :
+    it.collect fuel = .ok (it.abs k) := by
+  induction fuel generalizing it k with
+  | zero => omega
+  | succ fuel ih =>
+    cases k with
+    | zero => simp [collect, next_zero h, abs]
+    | succ k =>
+      obtain ⟨it', h1, h2, _, _, h6⟩ := next_succ h
+      have := ih h2 (by omega)
+      simp only [collect, h1, ok_bind, this, pure_eq]
+      rw [h6, abs, map_range_succ_head]
+      simp
+
+theorem collectBack_spec (m : Mode) {it : Col} {k n : Nat} (h : it.WF k n) (fuel : Nat) (hf : k < fuel) :
+    it.collectBack m fuel = .ok (it.abs k).reverse := by
+  induction fuel generalizing it k with
+  | zero => omega
+  | succ fuel ih =>
+    cases k with
+    | zero => simp [collectBack, nextBack_zero m h, abs]
+    | succ k =>
+      obtain ⟨it', h1, h2, _, _, h6⟩ := nextBack_succ m h
+      have := ih h2 (by omega)
+      simp only [collectBack, h1, ok_bind, this, pure_eq]
+      rw [h6, abs, map_range_succ_last]
+      simp
+
+/-! #### words of operations -/
+
+theorem step_spec (m : Mode) {it : Col} {k n : Nat} (h : it.WF k n) (o : Seq.Op) :
+    ∃ it' k', it.step m o = .ok ((Seq.step (it.abs k) o).1, it') ∧ it'.WF k' n ∧
+      it'.skip = it.skip ∧ it'.abs k' = (Seq.step (it.abs k) o).2 := by
+  cases o with
+  | next =>
+    obtain ⟨it', h1, h2, h3, h5⟩ := next_spec h
+    exact ⟨it', k - 1, by simp [step, h1, Seq.step, Seq.next], h2, h3, by simpa [Seq.step, Seq.next] using h5⟩
+  | nextBack =>
+    obtain ⟨it', h1, h2, h3, h5⟩ := nextBack_spec m h
+    exact ⟨it', k - 1, by simp [step, h1, Seq.step, Seq.nextBack], h2, h3,
+      by simpa [Seq.step, Seq.nextBack] using h5⟩
+  | nth j =>
+    obtain ⟨it', h1, h2, h3, h5⟩ := nth_spec m h j
+    exact ⟨it', k - (j + 1), by simp [step, h1, Seq.step, Seq.nth], h2, h3,
+      by simpa [Seq.step, Seq.nth] using h5⟩
+  | nthBack j =>
+    obtain ⟨it', h1, h2, h3, h5⟩ := nthBack_spec m h j
+    exact ⟨it', k - (j + 1), by simp [step, h1, Seq.step], h2, h3, by simpa [Seq.step] using h5⟩
+  | len =>
+    exact ⟨it, k, by simp [step, sizeHint_spec m h, Seq.step, abs_length], h, rfl, by simp [Seq.step]⟩
+
+theorem run_spec (m : Mode) {it : Col} {k n : Nat} (h : it.WF k n) (w : List Seq.Op) :
+    ∃ it' k', it.run m w = .ok ((Seq.run (it.abs k) w).1, it') ∧ it'.WF k' n ∧
+      it'.skip = it.skip ∧ it'.abs k' = (Seq.run (it.abs k) w).2 := by
+  induction w generalizing it k with
+  | nil => exact ⟨it, k, by simp [run, Seq.run], h, rfl, by simp [Seq.run]⟩
+  | cons o os ih =>
+    obtain ⟨it1, k1, h1, h2, h3, h5⟩ := step_spec m h o
+    obtain ⟨it2, k2, g1, g2, g3, g5⟩ := ih h2
+    refine ⟨it2, k2, ?_, g2, g3.trans h3, ?_⟩
+    · simp only [run, h1, ok_bind, g1, pure_eq, Seq.run, h5]
+    · simp only [Seq.run, g5, h5]
+
+/-! #### distinctness -/
+
+theorem abs_nodup (it : Col) (k : Nat) : (it.abs k).Nodup := by
+  rw [abs, List.Nodup, List.pairwise_map]
+  refine List.Pairwise.imp ?_ List.pairwise_lt_range
+  intro a b hab
+  have : (a + 1) * (1 + it.skip) ≤ b * (1 + it.skip) := Nat.mul_le_mul_right _ hab
+  rw [Nat.add_mul] at this
+  omega
+
+theorem abs_inside {it : Col} {k n : Nat} (h : it.WF k n) : ∀ p ∈ it.abs k, p < n := by
+  intro p hp
+  obtain ⟨j, hj, rfl⟩ := mem_abs.1 hp
+  obtain ⟨r, rfl⟩ : ∃ r, k = r + 1 := ⟨k - 1, by omega⟩
+  have hl := h.succ_len
+  have hin := h.inside
+  have : j * (1 + it.skip) ≤ r * (1 + it.skip) := Nat.mul_le_mul_right _ (by omega)
+  omega
+
+end Col
+
+/-! #### the column cursors of the three receivers -/
+
+/-- `TooDee::col` / `col_mut` with `c` in range -/
+theorem TD.col_WF {α : Type} (m : Mode) (t : TD α) (h : t.Inv) (c : Nat) (hc : c < t.numCols) :
+    ∃ it, t.col m c = .ok it ∧ it.WF t.numRows t.data.length ∧ it.v.off = c ∧ 1 + it.skip = t.numCols ∧
+      it.abs t.numRows = (List.range t.numRows).map fun r => t.pos c r := by
+  have hl := h.len
+  have hw := h.word
+  have hr : t.numRows ≠ 0 := fun hr => by have := h.zero.2 hr; omega
+  obtain ⟨r, hr'⟩ : ∃ r, t.numRows = r + 1 := ⟨t.numRows - 1, by omega⟩
+  have hl' : t.data.length = r * t.numCols + t.numCols := by
+    rw [hl, hr', Nat.mul_add, Nat.mul_comm]; simp
+  have hskip : 1 + (t.numCols - 1) = t.numCols := by omega
+  refine ⟨⟨⟨c, r * t.numCols + 1⟩, t.numCols - 1⟩, ?_, ⟨?_, ?_, ?_, hw⟩, rfl, hskip, ?_⟩
+  · have h1 : usub m t.data.length t.numCols = .ok (r * t.numCols) := by
+      rw [usub_ok m _ _ (by omega)]; congr 1; omega
+    have h2 : uadd m (r * t.numCols) c = .ok (r * t.numCols + c) := uadd_ok m _ _ (by omega)
+    have h3 : uadd m (r * t.numCols + c) 1 = .ok (r * t.numCols + c + 1) := uadd_ok m _ _ (by omega)
+    have h4 : usub m t.numCols 1 = .ok (t.numCols - 1) := usub_ok m _ _ (by omega)
+    have h5 : c ≤ r * t.numCols + c + 1 ∧ r * t.numCols + c + 1 ≤ t.data.length := by omega
+    have h6 : r * t.numCols + c + 1 - c = r * t.numCols + 1 := by omega
+    simp [TD.col, TD.colParams, hc, h1, h2, h3, h4, Win.getRange, TD.win, h5, h6]
+  · simp only [hskip, hr', if_neg (Nat.succ_ne_zero r), Nat.add_sub_cancel]
+  · simp only; omega
+  · simp only [hskip]; omega
+  · simp only [Col.abs, hskip, TD.pos]
+    apply map_range_congr
+    intro i _
+    omega
+
+/-- `TooDee::col` / `col_mut` with `c` out of range -/
+theorem TD.col_panic {α : Type} (m : Mode) (t : TD α) (c : Nat) (hc : ¬ c < t.numCols) :
+    t.col m c = .error .panic := by
+  simp [TD.col, TD.colParams, hc]
+
+/-- `TooDeeView::col`, `TooDeeViewMut::col` / `col_mut` with `c` in range -/
+theorem VW.col_WF (m : Mode) (v : VW) (n : Nat) (h : v.Inv n) (c : Nat) (hc : c < v.numCols) :
+    ∃ it, v.col m c = .ok it ∧ it.WF v.numRows n ∧ it.v.off = v.data.off + c ∧ 1 + it.skip = v.stride ∧
+      it.abs v.numRows = (List.range v.numRows).map fun r => v.pos c r := by
+  have hl := h.len
+  have hw := h.word
+  have hin := h.inside
+  have hs := h.stride
+  have hr : v.numRows ≠ 0 := fun hr => by have := h.zero.2 hr; omega
+  obtain ⟨r, hr'⟩ : ∃ r, v.numRows = r + 1 := ⟨v.numRows - 1, by omega⟩
+  have hl' : v.data.len = r * v.stride + v.numCols := by
+    rw [hl, hr', if_neg (Nat.succ_ne_zero r), Nat.add_sub_cancel]
+  have hskip : 1 + (v.stride - 1) = v.stride := by omega
+  refine ⟨⟨⟨v.data.off + c, r * v.stride + 1⟩, v.stride - 1⟩, ?_, ⟨?_, ?_, ?_, hw⟩, rfl, hskip, ?_⟩
+  · have h0 : usub m v.numRows 1 = .ok r := by
+      rw [usub_ok m _ _ (by omega)]; congr 1; omega
+    have h1 : umul m r v.stride = .ok (r * v.stride) := umul_ok m _ _ (by omega)
+    have h2 : uadd m c (r * v.stride) = .ok (c + r * v.stride) := uadd_ok m _ _ (by omega)
+    have h3 : uadd m (c + r * v.stride) 1 = .ok (c + r * v.stride + 1) := uadd_ok m _ _ (by omega)
+    have h4 : usub m v.stride 1 = .ok (v.stride - 1) := usub_ok m _ _ (by omega)
+    have h5 : c ≤ c + r * v.stride + 1 ∧ c + r * v.stride + 1 ≤ v.data.len := by omega
+    have h6 : c + r * v.stride + 1 - c = r * v.stride + 1 := by omega
+    simp [VW.col, VW.colParams, hc, hr, h0, h1, h2, h3, h4, Win.getRange, h5, h6]
+  · simp only [hskip, hr', if_neg (Nat.succ_ne_zero r), Nat.add_sub_cancel]
+  · simp only; omega
+  · simp only [hskip]; exact h.stride_word
+  · simp only [Col.abs, hskip, VW.pos]
+    apply map_range_congr
+    intro i _
+    omega
+
+/-- `TooDeeView::col`, `TooDeeViewMut::col` / `col_mut` with `c` out of range -/
+theorem VW.col_panic (m : Mode) (v : VW) (c : Nat) (hc : ¬ c < v.numCols) :
+    v.col m c = .error .panic := by
+  simp [VW.col, VW.colParams, hc]
+
 end Toodee
